@@ -178,6 +178,8 @@ def case(draw):
         info["second_message"] = True
     info["msg"] = msg
     info["id"] = mid
+    if draw(st.integers(0, 2)) == 0:
+        info["manager_history"] = draw(st.lists(st.sampled_from(["nop", "cpp", "dbc", "can_c", "nop"]), min_size=1, max_size=2))
     return M.Schema(decls), info
 
 
@@ -278,9 +280,19 @@ def check(s: M.Schema, info: Dict[str, Any], rec: Any = None) -> Optional[str]:
             out_dir = sc.path("out")
             os.makedirs(out_dir)
             failed = False
+            mgr = GeneratorManager(make_general_verifier())
+            # a tool that keeps one manager (and one parsed schema) and generates several targets one after the other
+            for n0, g0 in enumerate(info.get("manager_history") or []):
+                pre_dir = sc.path(f"pre{n0}")
+                os.makedirs(pre_dir)
+                try:
+                    with contextlib.redirect_stdout(io.StringIO()):
+                        mgr.generate(g0, None, None, fcp2, pre_dir)
+                except BaseException:
+                    pass
             try:
                 with contextlib.redirect_stdout(io.StringIO()):
-                    r = GeneratorManager(make_general_verifier()).generate(gen, None, None, fcp2, out_dir)
+                    r = mgr.generate(gen, None, None, fcp2, out_dir)
                 failed = bool(r.is_err())
             except Exception:
                 failed = True
@@ -338,6 +350,8 @@ def run_shard(ctx: Ctx) -> None:
             cl.append("duplicate_field_id")
         if info.get("small_enum"):
             cl.append("small_enum_filler")
+        if info.get("manager_history"):
+            cl.append("manager_reused_after_other_targets")
         rec.cls(*cl)
         text = printer.to_text(s)
         if size is None or size > 64:
